@@ -284,7 +284,16 @@ fn pool_laws(pool: &[Value], st: &mut Stats, d: &mut Digest) -> Option<Violation
     None
 }
 
+/// `run_c14_inner` with every panic contained (building a twin or a near copy, cloning, dumping the
+/// index): a panic of the library there is `c14.panic`, not the death of a worker thread.
 pub fn run_c14(sc: &HistSc, st: &mut Stats) -> super::c06::HistOutcome {
+    match catch_unwind(AssertUnwindSafe(|| run_c14_inner(sc, st))) {
+        Ok(o) => o,
+        Err(p) => super::c06::HistOutcome { violation: viol("c14.panic", format!("building, cloning or comparing values panicked: {}", super::c06::payload_text(p.as_ref()))), outcome: 0, nontrivial: false },
+    }
+}
+
+fn run_c14_inner(sc: &HistSc, st: &mut Stats) -> super::c06::HistOutcome {
     use super::c06::HistOutcome;
     set_hash_config(hash_mode_of(&sc.hash_mode), sc.hash_seed);
     let mut regs: [Object; REGISTERS] = [Object::new(), Object::new(), Object::new()];
